@@ -235,6 +235,11 @@ impl Check for C05 {
 			if let Err(p) = catch(|| cancellation(w, ctx)) {
 				ctx.fail(format!("panic: {} :: cancellation", p), CANCEL_NAMES[w as usize]);
 			}
+			if w == 0 {
+				if let Err(p) = catch(|| bystanders(ctx)) {
+					ctx.fail(format!("panic: {} :: bystander clocks", p), "");
+				}
+			}
 		} else if idx >= hist_cases() + GRID_CASES + E2_CASES {
 			e2_sched(tier, idx - hist_cases() - GRID_CASES - E2_CASES, ctx);
 		} else {
@@ -1035,6 +1040,92 @@ fn e2_sched(tier: Tier, which: u64, ctx: &mut Ctx) {
 
 // ---------------------------------------------------------------------------------------------
 // cancellation: "is cancelled (a waiting sound becomes Stopped) if the clock no longer exists" - and only then
+
+// ---------------------------------------------------------------------------------------------
+// bystanders: clock B's speed change is scheduled on clock A's time; other clocks (created before A, between A and B, after B)
+// come and go meanwhile. Dropping a clock that nothing refers to changes nothing for A and B: after every callback their times
+// are those of the run in which nobody was dropped - for every subset of bystanders and every callback at which it is dropped
+
+fn bystanders(ctx: &mut Ctx) {
+	let (sr, ibs) = (16u32, 4usize);
+	let run = |subset: u32, at: usize, b_first: bool| -> Result<Vec<((u64, f64), (u64, f64))>, String> {
+		catch(|| {
+			let mut m = rig::manager(sr, ibs, rig::caps(8), MainTrackBuilder::new());
+			let mut mk = |m: &mut Manager| {
+				let mut c = m.add_clock(ClockSpeed::TicksPerSecond(1.0)).expect("clock");
+				c.start();
+				c
+			};
+			let x0 = mk(&mut m);
+			// (b_first: B is older than A - the scheduled change then sees A's time of the previous buffer in every run alike)
+			let (mut a, x1, mut b);
+			if b_first {
+				b = mk(&mut m);
+				x1 = mk(&mut m);
+				a = mk(&mut m);
+			} else {
+				a = mk(&mut m);
+				x1 = mk(&mut m);
+				b = mk(&mut m);
+			}
+			let x2 = mk(&mut m);
+			a.set_speed(ClockSpeed::TicksPerSecond(2.0), Tween { duration: Duration::ZERO, ..Default::default() });
+			// B: 1 -> 8 ticks/s at A's tick 1 (0.5 s = 2 buffers in)
+			b.set_speed(ClockSpeed::TicksPerSecond(8.0), Tween { start_time: StartTime::ClockTime(ClockTime { clock: a.id(), ticks: 1, fraction: 0.0 }), duration: Duration::ZERO, easing: Easing::Linear });
+			let mut xs = [Some(x0), Some(x1), Some(x2)];
+			let mut buf = vec![0.0f32; 2 * ibs];
+			let mut trace = vec![];
+			for cb in 0..8 {
+				if cb == at {
+					for (i, x) in xs.iter_mut().enumerate() {
+						if subset & (1 << i) != 0 {
+							drop(x.take());
+						}
+					}
+				}
+				rig::callback(&mut m, &mut buf, ibs, 2);
+				let (ta, tb) = (a.time(), b.time());
+				trace.push(((ta.ticks, ta.fraction), (tb.ticks, tb.fraction)));
+			}
+			trace
+		})
+	};
+	for b_first in [false, true] {
+		let Ok(base) = run(0, 0, b_first) else {
+			ctx.fail("panic :: bystander clocks", "baseline run".to_string());
+			return;
+		};
+		for subset in 1..8u32 {
+			for at in 0..5usize {
+				ctx.evals += 1;
+				ctx.traces += 1;
+				let what = format!("clocks created in the order X0, {}, X2 (all started, 1 tick/s; A at 2 ticks/s); B.set_speed(8 ticks/s at A's tick 1); bystanders {:#05b} (bit i = Xi) dropped before callback {}; 8 callbacks of {} frames at {} Hz", if b_first { "B, X1, A" } else { "A, X1, B" }, subset, at, ibs, sr);
+				match run(subset, at, b_first) {
+					Ok(t) => {
+						if let Some(k) = (0..t.len()).find(|&k| t[k] != base[k]) {
+							ctx.fail(
+								"dropping a clock that nothing refers to changes the time of other clocks (a speed change scheduled on another clock's time takes effect in a different buffer) :: bystander clocks",
+								format!("{}: after callback {} (A, B) = {:?}, without the drop {:?}", what, k, t[k], base[k]),
+							);
+						} else {
+							ctx.nontrivial_extra += 1;
+						}
+						ctx.state(hash64(&("bystanders", b_first, subset, at)));
+					}
+					Err(p) => ctx.fail(format!("panic: {} :: bystander clocks", p), what),
+				}
+			}
+		}
+		// the baseline itself: B switches in the buffer during which A reaches tick 1 (A before B) or the one after (B before A)
+		let tb: Vec<f64> = base.iter().map(|x| x.1 .0 as f64 + x.1 .1).collect();
+		let want_first = if b_first { 3 } else { 2 };
+		let switched = (1..tb.len()).find(|&k| tb[k] - tb[k - 1] > 1.0);
+		if switched != Some(want_first - 1) && switched != Some(want_first) {
+			ctx.fail("a speed change scheduled on another clock's time does not take effect when that time is reached :: bystander clocks", format!("B's time after each callback {:?} (A reaches tick 1 at the end of callback 1)", tb));
+		}
+	}
+	ctx.outcome(hash64(&"bystanders"));
+}
 
 fn cancellation(which: u64, ctx: &mut Ctx) {
 	use crate::probes::SoundHandle;
